@@ -18,26 +18,26 @@ NOTE = ("Trusted: Lean 4.33 kernel (axioms audited per theorem: propext, Classic
         "property; tools/gen_tables.py; the Rust harness, Lean driver and line protocol; Rust std.")
 
 P = {
- "C01": ("PARTIAL proof, by stages, + differential oracle. Proved for all texts (Model): the removed-character clause for the whole pipeline (C01_removed_carry); the pure-LTR shortcut agrees with UAX #9 (pure_ltr_levels, on the Spec); StageX (the explicit machine is the X1-X8 machine: C11_sim_step/run); StageI, StageFill; StageW (single pass = W1..W7 on every multi-run sequence, BN interleaving included: stageW_runs); StageN: N1/N2 and BD16 (with the 63 limit) in full generality, N0 incl. retained BN units (stageN_runs, stageN_bn); Expand (every stage on any well-formed text = the stage on the one-unit-per-character text, expanded). Open: StageSeq (stack algorithm = BD13/X10) and the final composition C01_levels; until they land the equality Model = Spec is established on every run by the oracle: the crate's levels vs the executable Lean Spec (X1-X10, W1-W7, N0-N2, I1-I2) on generated texts (depth>125, >63 brackets over several level runs, multi-unit characters, custom data sources, exhaustive small scope in the thorough tier) and stage-by-stage through the cfg hooks.", "Lean stage theorems + Impl/Model correspondence (end-to-end and per stage via hooks) + Spec oracle"),
+ "C01": ("FULL proof: for every well-formed text (every &str, every &[u16]), every data source and every base-direction choice, BidiInfo::new / ParagraphBidiInfo::new as modelled cannot panic and the levels of every paragraph are the expansion to code units of UAX #9's levels (Spec.paragraphLevels: X1-X8, X9, X10/BD13, W1-W7, BD16/N0-N2 with the 63 limit, I1-I2, and the level carried by removed characters) of the paragraph's characters with their reported classes, at the P2/P3 paragraph level (C01_bidiInfo, C01_paragraphBidiInfo, C01_chars, C01_unit; built-in data for &str and &[u16]: C01_hardcoded_str, C01_hardcoded_utf16 and the _single forms). Proved by stages (StageX = C11_sim, StageSeq, StageW, StageN incl. retained BN units, StageI, StageFill, pure-LTR shortcut, Expand = unit-length independence) and composed in Lemmas/C01Compose*. Since the repair of finding D9 no hypothesis on the data source's bracket classes remains. Tie to the code: Impl/Model correspondence end-to-end and stage by stage through the cfg hooks; the Spec oracle on the crate's own answers finds the replay (generated texts incl. depth > 125, > 63 pending brackets over several level runs, every bracket pair of the reference in N0-sensitive templates, > 256 sibling isolates, removed-only text, multi-unit characters; exhaustive small scope in the thorough tier).", "Lean theorems (Model = UAX #9 Spec, all inputs) + Impl/Model correspondence (end-to-end and per stage via hooks) + Spec oracle"),
  "C02": ("FULL proof: partition (C02_partition), P2/P3 (C02_level), X5c as reported (C02_classes, uniform), single-paragraph mode (C02_single), no panic, for every well-formed text, data source (FSI on U+2068-width characters) and direction; correspondence on paragraphs/classes; Spec oracle (BD9 by depth counting, P2/P3, X5c).", "Lean theorems + correspondence + Spec oracle"),
  "C03": ("FULL proof: the scan equals the declarative L1 of the Spec on every well-formed line (C03_l1, C03_line), levels outside the line untouched (C03_outside), per-character variant (C03_per_char), the reset_to assert unreachable; relative correspondence (crate's own classes/levels in, line levels out).", "Lean theorems + correspondence + Spec oracle"),
  "C04": ("FULL proof for every level sequence: no panic, length, permutation, identity without odd levels, equality with the Spec's L2 (C04_eq_spec); correspondence on generated level vectors incl. the 126 region.", "Lean theorems + correspondence + Spec oracle"),
  "C05": ("FULL proof: no panic (incl. lines wholly at 126), the runs are the maximal single-level pieces of the line (C05_partition), their order reversed-if-odd is the Spec's L2 order (C05_order); the deprecated copy is the same Model function and is compared with the crate's deprecated function on every case.", "Lean theorems + correspondence + Spec oracle"),
- "C06": ("FULL proof: no panic, the result's characters are L2 of the per-character L1 levels (C06_chars), a permutation of the line's characters (C06_perm), whole characters only (C06_whole_chars, C06_run_boundaries), the line itself without odd level (C06_noop) - given levels uniform within characters (C08); relative correspondence; Spec oracle.", "Lean theorems + correspondence + Spec oracle"),
- "C07": ("Proof: constructing either analysis cannot panic for any well-formed text / any &str / any &[u16] with the built-in data (C07_analysis, C07_analysis_str, C07_analysis_u16, C07_para); every line query total for &[u16] (C07_total_u16); for &str reorder_line additionally uses uniform stored levels (C07_total_partial; discharged by the Expand corollary when present, see evidence 'theorems'). Index expressions classified as structural in DESIGN §3 and the std calls are covered by the correspondence only: every call runs under catch_unwind with debug assertions and overflow checks on.", "Lean no-panic theorems + catch_unwind correspondence"),
- "C08": ("Proof: one entry per code unit (C08_len_*), classes uniform (C08_uniform_classes), explicit / I1-I2 / fill stages uniform and in range (C08_uniform_explicit, C08_uniform_resolveLevels, C08_uniform_fill, C08_range_*), line levels uniform (C03_uniform); levels uniform through W/N via the Expand lemmas (C08Uniform when present); oracle: uniformity/range predicates on every vector the crate returns.", "Lean theorems + correspondence + Spec oracle"),
- "C09": ("Proof: the UTF-16 text source enumerates the lossy decoding (C18); same characters, raw classes, base direction, paragraphs (character ranges and levels) and reported classes as the UTF-8 text (C09_same_chars, C09_base_direction, C09_paragraphs, C09_classes, C09_single_paragraph_api); levels character for character from the Expand lemma (C09_levels_of_expand, hypothesis discharged by ExpandPipeline when present); oracle: UTF-16 API vs UTF-8 API on the lossy decoding, per character, std-only segmentation in the harness.", "Lean theorems + metamorphic oracle"),
- "C10": ("FULL proof for classes/levels/paragraph level: a paragraph analysed inside the whole text equals its substring analysed alone (C10_slice, C10_slice_multi, C10_slice_err), single-paragraph type = multi-paragraph type on one-paragraph text incl. line queries (C10_single, C10_single_reorder_line); open: line queries on a paragraph substring vs whole text (a shift lemma); oracle: whole text vs each paragraph substring and ParagraphBidiInfo vs BidiInfo.", "Lean theorems + metamorphic oracle"),
+ "C06": ("FULL proof: no panic, the result's characters are L2 of the per-character L1 levels (C06_chars), a permutation of the line's characters (C06_perm), whole characters only (C06_whole_chars, C06_run_boundaries), the line itself without odd level (C06_noop); the uniformity of stored levels these use is C08_uniform (proved); relative correspondence; Spec oracle.", "Lean theorems + correspondence + Spec oracle"),
+ "C07": ("FULL proof for the represented panic sites: constructing either analysis cannot panic for any well-formed text / any &str / any &[u16] (C07_analysis, C07_analysis_str, C07_analysis_u16, C07_para) and every line query (levels, per-char levels, runs, deprecated runs, reorder_visual, reorder_line, direction, level_at, has_rtl) returns normally for every line on character boundaries inside a paragraph, both encodings, both analysis types (C07_total, C07_total_single, C07_total_str, C07_total_str_single, C07_total_u16). Index expressions classified as structural in DESIGN §3 and the std calls are covered by the correspondence only: every call runs under catch_unwind with debug assertions and overflow checks on (generators include removed-only text, B inside single-paragraph text, depth > 125, > 63 brackets, > 256 sibling isolates, lines wholly at 126).", "Lean no-panic theorems + catch_unwind correspondence"),
+ "C08": ("FULL proof: one entry per code unit (C08_len_*), classes uniform (C08_uniform_classes), stored levels uniform within every character for both analysis types (C08_uniform, C08_uniform_levels_multi/_single, via the Expand lemmas), levels between the paragraph level and 126 (C08_range_*), line levels uniform (C03_uniform), per-character vector one entry per character; oracle: uniformity/range predicates on every vector the crate returns.", "Lean theorems + correspondence + Spec oracle"),
+ "C09": ("FULL proof: the UTF-16 text source enumerates the lossy decoding (C18); same characters, raw classes, base direction, paragraphs (character ranges and levels), reported classes and levels, character for character, as the UTF-8 analysis of the lossy decoding (C09_same_chars, C09_base_direction, C09_paragraphs, C09_classes, C09_levels, C09_levels_uniform, C09_levels_hardcoded, C09_single_paragraph_api); line queries follow from C03-C06 being functions of classes/levels; oracle: UTF-16 API vs UTF-8 API on the lossy decoding, per character (levels, line levels per unit and per character, runs, reordered line segment-wise, exact encoding for well-formed input), std-only segmentation in the harness.", "Lean theorems + metamorphic oracle"),
+ "C10": ("FULL proof: a paragraph analysed inside the whole text equals its substring analysed alone for classes, levels, paragraph level (C10_slice, C10_slice_multi, C10_slice_err) and for line levels, runs and reordered lines up to the index shift (C10_lines: reorderedLevels_shift, visualRuns_shift, reorderLine_shift); single-paragraph type = multi-paragraph type on one-paragraph text incl. line queries (C10_single, C10_single_reorder_line); oracle: whole text vs each paragraph substring and ParagraphBidiInfo vs BidiInfo.", "Lean theorems + metamorphic oracle"),
  "C11": ("FULL proof: reachable-state invariant of the explicit machine (ExInv), explicit levels in [paragraph level,125], resolved <= 126, no panic, the Model's machine is the UAX #9 machine (C11_sim_step/run), balance from ANY reachable state incl. overflow (C11_balance), overflow initiators ignored (C11_overflow_ignored); the 63-bracket clause is bd16_limit / bd16_stack_le (Lemmas/C01NeutralBD16); oracle: Spec levels on deep / bracket-heavy inputs, stage correspondence via hooks.", "Lean theorems + correspondence + Spec oracle"),
- "C12": ("FULL proof of the congruence: the analysis consults the data source only through cls/brk of the text's characters (C12_depends_only_on_ds), built-in source explicit = convenience (definitional); unit-length independence via the Expand lemmas; oracle: random data sources (incl. keys that real Unicode relates), same abstract sequence through 1-unit and multi-unit alphabets.", "Lean theorems + metamorphic oracle"),
+ "C12": ("FULL proof: for EVERY data source the analysis is UAX #9 applied to the class and bracket values the source returns (C12_any_source, C12_any_source_single = C01 without any hypothesis on the source's bracket classes, since the repair of finding D9); the analysis consults the source only through cls/brk of the text's characters (C12_depends_only_on_ds); two texts with the same class/bracket values position by position are analysed identically whatever their encodings, unit lengths and scalar values (C12_unit_len_irrelevant, _single, C12_units_uniform); built-in source explicit = convenience (C12_builtin_explicit); oracle: random data sources incl. brackets of class ES/CS/ET/NSM next to BN/NSM (ds-brkcls), keys that real Unicode relates, the same abstract sequence through 1-unit and multi-unit alphabets.", "Lean theorems + metamorphic oracle"),
  "C13": ("FULL proof on the Spec (UAX #9 itself): matching PDI of a balanced content, paragraph level, X5c outside, explicit state restored at the PDI from any state, and C13_isolation / C13_isolation_raw: the levels of every character outside a valid LRI/RLI...PDI pair do not depend on a balanced B-free content; transfer to the crate by the C01 tie; oracle: metamorphic content replacement on the real crate (incl. initiators at levels 119-123 and pairs wrapped in outer brackets).", "Lean theorems + metamorphic oracle"),
  "C14": ("FULL proof; translator regenerates the table model from tables.rs every run: table sorted/disjoint (kernel decision over all 1505 rows), std's binary search = order-independent lookup for every sorted table (C14_bsearch), equality with the frozen Unicode 16.0 reference for every natural number (C14_ref), format characters, version; correspondence exhaustive over all 1,112,064 scalars.", "translator + Lean theorems (decide +kernel over the whole table) + exhaustive correspondence"),
  "C15": ("FULL proof; translator regenerates the pairs table: distinctness, first-match = any-match, equality with the frozen reference for every code point (C15_ref), key structure incl. canonical equivalents (C15_keys, C15_canonical), every bracket is ON in the class table (C15_all_ON); correspondence exhaustive over all scalars.", "translator + Lean theorems + exhaustive correspondence"),
  "C16": ("FULL proof: the depth-counter scan equals P2 with BD9 matching on the first paragraph / first paragraph with a strong character (C16_first, C16_full) and agrees with the analysis' auto-detected level (C16_agree_first, C16_agree_full, C16_levels); correspondence and Spec oracle on both encodings and custom sources.", "Lean theorems + correspondence + Spec oracle"),
  "C17": ("FULL proof: direction (C17_direction), level_at, has_rtl of the multi-paragraph type, and for the single-paragraph type has_rtl()==false implies all levels 0 and reorder_line returns the line for every range (C17_has_rtl_single); oracle on the crate's own levels.", "Lean theorems + correspondence + Spec oracle"),
  "C18": ("FULL proof for every unit sequence and every next/next_back sequence: char_at and the iterators enumerate the lossy decoding (C18_segments, C18_char_at, C18_tiles, C18_len_sum); the double-ended iterator is a deque over it (C18_double_ended); correspondence on random unit arrays and op sequences.", "Lean theorems + correspondence + Spec oracle"),
- "C19": ("FULL proof for all arguments (constructors, raise/lower exactness and failure, next-LTR/RTL, lowest odd, parity, class, has_rtl); correspondence exhaustive over 127 levels x 256 amounts and all 256 u8 values.", "Lean theorems + exhaustive correspondence"),
- "C20": ("The Model has no notion of container or feature, so 'all configurations give the same results' is: every configuration corresponds to the one Model. The harness is built under five feature sets from the current tree; each build's answers go through the driver (Model + Spec verdicts) and the builds' digests over identical generated texts are compared with each other; serde_json round trip of every level and of a level vector. Lean contributes the common Model (all theorems of C01-C19) and the newtype-u8 round trip.", "per-configuration correspondence to one Lean Model + digest comparison + small Lean theorem"),
+ "C19": ("FULL proof for all arguments (constructors, raise/lower exactness and failure, next-LTR/RTL, lowest odd, parity, class, has_rtl); correspondence exhaustive over 127 levels x 256 amounts and all 256 u8 values (new / new_explicit / From<u8> / Level::vec), has_rtl on slices with one odd level at every position of every length up to 40 plus random slices up to 70.", "Lean theorems + exhaustive correspondence"),
+ "C20": ("The Model has no notion of container or feature, so 'all configurations give the same results' is: every configuration corresponds to the one Model. The harness is built under five feature sets from the current tree; each build's answers go through the driver (Model + Spec verdicts) and the builds' digests over identical generated texts are compared with each other; every build also runs the exhaustive sweeps of the class table, the bracket table and Level against the Model (a feature may change a lookup path); serde_json round trip of every level and of a level vector. Lean contributes the common Model (all theorems of C01-C19) and the newtype-u8 round trip.", "per-configuration correspondence to one Lean Model + digest comparison + small Lean theorem"),
 }
 
 checks = []
@@ -73,7 +73,7 @@ m = {
               "kind_free_text": "Lean 4 model + theorems (kernel-checked), Rust in-process harness, Lean native driver evaluating Model and Spec on the crate's answers"}],
  "checks": checks,
  "not_applicable": [],
- "notes": "Seven genuine defects were found and repaired in /repo ('fix:' commits), see known_findings.json and DESIGN.md §6.",
+ "notes": "Nine genuine defects (D1-D9) were found through the machinery and repaired in /repo by one 'fix:' commit each, see known_findings.json and DESIGN.md §6. tools/coverage.sh and tools/automut.py are diagnostics (line coverage of the crate under the correspondence streams; systematic mutation sweep), not registered checks.",
 }
 json.dump(m, open(os.path.join(ROOT, "MANIFEST.json"), "w"), indent=1)
 print("MANIFEST.json written:", len(checks), "checks")
